@@ -38,6 +38,9 @@ Enc(v) ==
     [] v[1] = "tag" -> Hd(6, 0, v[2]) \o Enc(v[3])
     [] v[1] = "bool" -> << <<"b", <<IF v[2] THEN 245 ELSE 244>> >> >>
     [] v[1] = "null" -> << <<"b", <<246>> >> >>
+    [] v[1] = "undef" -> << <<"b", <<247>> >> >>
+    \* indefinite-length byte string: 0x5f, definite chunks of the given lengths, break
+    [] v[1] = "ibytes" -> << <<"b", <<95>> >> >> \o Flat([i \in 1..Len(v[3]) |-> Hd(2, 0, v[3][i]) \o (IF v[3][i] = 0 THEN <<>> ELSE << <<"r", v[2], v[3][i]>> >>)]) \o << <<"b", <<255>> >> >>
 
 U(n) == <<"uint", 0, n>>
 T(codes) == <<"text", codes>>
@@ -55,6 +58,14 @@ K_target == <<116, 97, 114, 103, 101, 116>>
 K_addAllowList == <<97, 100, 100, 65, 108, 108, 111, 119, 76, 105, 115, 116>>
 K_removeDenyList == <<114, 101, 109, 111, 118, 101, 68, 101, 110, 121, 76, 105, 115, 116>>
 K_bogus == <<98, 111, 103, 117, 115>>
+K_allowList == <<97, 108, 108, 111, 119, 76, 105, 115, 116>>
+K_denyList == <<100, 101, 110, 121, 76, 105, 115, 116>>
+K_paused == <<112, 97, 117, 115, 101, 100>>
+K_name == <<110, 97, 109, 101>>
+K_url == <<117, 114, 108>>
+K_checksum == <<99, 104, 101, 99, 107, 115, 117, 109, 83, 104, 97, 50, 53, 54>>   \* checksumSha256
+K_note == <<95, 110, 111, 116, 101>>        \* _note
+K_zz == <<122, 122>>
 
 (* token-amount = decfrac = #6.4([exponent, mantissa]) with exponent = -decimals *)
 TokenAmount(mantHi, mantLo, decimals) ==
@@ -153,6 +164,52 @@ TokenVectors ==
     Vec("CborHolderAccount", <<"tag", 40308, <<"map", << <<U(3), <<"bytes", 3, 32>> >> >> >> >>, "reject", "wrong tag", NoF),
     Vec("CborHolderAccount", <<"tag", 40307, <<"map", << <<U(1), <<"tag", 40305, <<"map", << <<U(1), U(920)>> >> >> >> >>, <<U(3), <<"bytes", 3, 32>> >> >> >> >>, "reject", "coin info other than CCD", NoF) }
 
+(* module state, account state and metadata URL: all fields optional, further text keys are kept (CDDL: * text => any) *)
+StateVectors ==
+  { Vec("TokenModuleAccountState", <<"map", <<>> >>, "accept", "canonical", [additional |-> 0]),
+    Vec("TokenModuleAccountState", <<"map", << <<T(K_allowList), <<"bool", TRUE>> >> >> >>, "accept", "canonical", [additional |-> 0, allow_list |-> TRUE]),
+    Vec("TokenModuleAccountState", <<"map", << <<T(K_denyList), <<"bool", FALSE>> >> >> >>, "accept", "canonical", [additional |-> 0]),
+    Vec("TokenModuleAccountState", <<"map", << <<T(K_zz), U(5)>> >> >>, "accept", "canonical", [additional |-> 1]),
+    \* unknown entries are kept whatever their value is - also null, arrays containing null, nested maps
+    Vec("TokenModuleAccountState", <<"map", << <<T(K_zz), <<"null">> >> >> >>, "accept", "canonical", [additional |-> 1]),
+    Vec("TokenModuleAccountState", <<"map", << <<T(K_zz), <<"array", << <<"null">> >> >> >> >> >>, "accept", "canonical", [additional |-> 1]),
+    Vec("TokenModuleAccountState", <<"map", << <<T(K_note), <<"null">> >>, <<T(K_allowList), <<"bool", TRUE>> >> >> >>, "accept_any_order", "unknown entry with null value", [additional |-> 1, allow_list |-> TRUE]),
+    Vec("TokenModuleAccountState", <<"map", << <<T(K_note), T(K_zz)>>, <<T(K_allowList), <<"bool", TRUE>> >>, <<T(K_zz), <<"map", <<>> >> >> >> >>, "accept_any_order", "unknown entries", [additional |-> 2, allow_list |-> TRUE]),
+    Vec("TokenModuleAccountState", <<"map", << <<T(K_allowList), U(1)>> >> >>, "reject", "ill-typed flag", NoF),
+    Vec("TokenModuleAccountState", <<"map", << <<T(K_allowList), <<"undef">> >> >> >>, "reject", "undefined is not a boolean nor null", NoF),
+    Vec("TokenModuleAccountState", <<"map", << <<U(1), <<"bool", TRUE>> >> >> >>, "reject", "non-text key", NoF),
+    Vec("TokenModuleAccountState", <<"array", <<>> >>, "reject", "ill-typed state", NoF),
+    Vec("TokenModuleState", <<"map", <<>> >>, "accept", "canonical", [additional |-> 0]),
+    Vec("TokenModuleState", <<"map", << <<T(K_name), T(K_zz)>> >> >>, "accept", "canonical", [additional |-> 0]),
+    Vec("TokenModuleState", <<"map", << <<T(K_paused), <<"bool", TRUE>> >> >> >>, "accept", "canonical", [additional |-> 0]),
+    Vec("TokenModuleState", <<"map", << <<T(K_zz), <<"null">> >> >> >>, "accept", "canonical", [additional |-> 1]),
+    Vec("TokenModuleState", <<"map", << <<T(K_name), T(K_zz)>>, <<T(K_note), <<"null">> >>, <<T(K_paused), <<"bool", FALSE>> >> >> >>, "accept_any_order", "unknown entry with null value", [additional |-> 1]),
+    Vec("TokenModuleState", <<"map", << <<T(K_name), U(3)>> >> >>, "reject", "ill-typed name", NoF),
+    Vec("TokenModuleState", <<"map", << <<T(K_paused), <<"undef">> >> >> >>, "reject", "undefined is not a boolean nor null", NoF),
+    Vec("MetadataUrl", <<"map", << <<T(K_url), T(K_zz)>> >> >>, "accept", "canonical", [additional |-> 0]),
+    Vec("MetadataUrl", <<"map", << <<T(K_url), T(K_zz)>>, <<T(K_checksum), <<"bytes", 9, 32>> >> >> >>, "accept_any_order", "with checksum", [additional |-> 0]),
+    Vec("MetadataUrl", <<"map", << <<T(K_zz), <<"null">> >>, <<T(K_url), T(K_zz)>> >> >>, "accept_any_order", "unknown entry with null value", [additional |-> 1]),
+    Vec("MetadataUrl", <<"map", <<>> >>, "reject", "missing mandatory field url", NoF),
+    Vec("MetadataUrl", <<"map", << <<T(K_url), T(K_zz)>>, <<T(K_checksum), <<"bytes", 9, 31>> >> >> >>, "reject", "checksum of 31 bytes", NoF),
+    Vec("MetadataUrl", <<"map", << <<T(K_url), T(K_zz)>>, <<T(K_checksum), <<"bytes", 9, 33>> >> >> >>, "reject", "checksum of 33 bytes", NoF),
+    \* fixed-size byte strings given in chunks: the total must still be exactly the size
+    Vec("MetadataUrl", <<"map", << <<T(K_url), T(K_zz)>>, <<T(K_checksum), <<"ibytes", 9, <<16>> >> >> >> >>, "reject", "chunked checksum of 16 bytes", NoF),
+    Vec("MetadataUrl", <<"map", << <<T(K_url), T(K_zz)>>, <<T(K_checksum), <<"ibytes", 9, <<>> >> >> >> >>, "reject", "chunked checksum of 0 bytes", NoF),
+    Vec("MetadataUrl", <<"map", << <<T(K_url), T(K_zz)>>, <<T(K_checksum), <<"ibytes", 9, <<32, 1>> >> >> >> >>, "reject", "chunked checksum of 33 bytes", NoF),
+    Vec("MetadataUrl", <<"map", << <<T(K_url), T(K_zz)>>, <<T(K_checksum), <<"ibytes", 9, <<16, 16>> >> >> >> >>, "any", "chunked checksum of 32 bytes", NoF),
+    Vec("CborHolderAccount", <<"tag", 40307, <<"map", << <<U(3), <<"ibytes", 3, <<16>> >> >> >> >> >>, "reject", "chunked address of 16 bytes", NoF),
+    Vec("CborHolderAccount", <<"tag", 40307, <<"map", << <<U(3), <<"ibytes", 3, <<31>> >> >> >> >> >>, "reject", "chunked address of 31 bytes", NoF),
+    Vec("CborHolderAccount", <<"tag", 40307, <<"map", << <<U(3), <<"ibytes", 3, <<30, 3>> >> >> >> >> >>, "reject", "chunked address of 33 bytes", NoF),
+    Vec("CborHolderAccount", <<"tag", 40307, <<"map", << <<U(3), <<"ibytes", 3, <<1, 31>> >> >> >> >> >>, "any", "chunked address of 32 bytes", NoF),
+    \* optional positions hold a value of the type or are absent (null is tolerated); undefined and other simple values are ill-typed
+    Vec("TokenOperations", Ops(<< Transfer(A1, R1, <<"undef">>) >>), "reject", "undefined memo", NoF),
+    Vec("TokenOperations", Ops(<< Transfer(A1, R1, <<"bool", TRUE>>) >>), "reject", "ill-typed memo", NoF),
+    Vec("TokenOperations", Ops(<< Transfer(A1, R1, <<"null">>) >>), "any", "null memo", NoF),
+    Vec("OptionU64", <<"undef">>, "reject", "undefined is not an integer nor null", NoF),
+    Vec("OptionU64", <<"null">>, "accept", "canonical", NoF),
+    Vec("OptionU64", U(7), "accept", "canonical", NoF),
+    Vec("OptionU64", <<"bool", FALSE>>, "reject", "ill-typed", NoF) }
+
 (* nesting up to depth 64 is inside the claim *)
 RECURSIVE Nest(_)
 Nest(d) == IF d = 0 THEN U(7) ELSE <<"array", << Nest(d - 1) >> >>
@@ -170,7 +227,13 @@ TextVectors ==
   { [ty |-> "TokenAmountText", value |-> v, decimals |-> d, text |-> AmountString(v, d), bytes |-> Enc(TokenAmount(0, v, d)),
      expect |-> "accept", class |-> "canonical", fields |-> NoF, opts |-> "default"] : v \in {0, 1, 9, 100, 12345, 2147483647}, d \in {0, 1, 2, 6, 18, 28} }
 
-AllVectors == GenericVectors \cup TokenVectors \cup NestVectors \cup TextVectors
+(* decimal strings that denote no amount: negative, more digits than the token has, not a number *)
+BadTextVectors ==
+  { [ty |-> "TokenAmountBadText", value |-> 0, decimals |-> d, text |-> t, bytes |-> <<>>, expect |-> "reject", class |-> "not an amount", fields |-> NoF, opts |-> "default"] :
+      d \in {0, 1, 2, 6}, t \in { <<"-", "1">>, <<"-", "0", ".", "5">>, <<"-", "0", ".", "0", "1">>, <<"-", "5", "0", "0">>, <<"a">>, <<>>, <<"1", ".", "2", ".", "3">>,
+                                   <<"1", "8", "4", "4", "6", "7", "4", "4", "0", "7", "3", "7", "0", "9", "5", "5", "1", "6", "1", "6">> } }
+
+AllVectors == GenericVectors \cup TokenVectors \cup StateVectors \cup NestVectors \cup TextVectors \cup BadTextVectors
 
 VARIABLE vec
 BInit == vec \in AllVectors
